@@ -1,7 +1,6 @@
 // ---- specs/coef.rs : the coefficient step of CubicSpline::calc_coefficients (a, b from the knot slopes k)
 pub struct CoefLoop { }
 pub open spec fn lanes_of(d: &ArrD) -> int { d.rows@[0].len() as int }
-pub open spec fn rect(rows: Seq<Seq<T>>, l: int) -> bool { forall|i: int| 0 <= i < rows.len() ==> (#[trigger] rows[i]).len() == l }
 pub open spec fn deps6(a: T, b: T, c: T, d: T, e: T, f: T) -> Set<Cell> {
     a.deps@.union(b.deps@).union(c.deps@).union(d.deps@).union(e.deps@).union(f.deps@)
 }
